@@ -321,3 +321,6 @@ func (d *Detached) Flush() error {
 func (d *Detached) ReadCommand() (redcon.Command, error) {
 	return redcon.Command{}, io.EOF
 }
+
+// IsDetached reports whether the handler detached the connection (pub/sub).
+func (s *SrvConn) IsDetached() bool { return s.detached != nil }
